@@ -4,6 +4,7 @@ package main
 
 import (
 	"bytes"
+	"errors"
 	"fmt"
 	"io"
 
@@ -34,9 +35,15 @@ func sealChunk(key []byte, ctr uint64, last bool, p []byte) []byte {
 	return a.Seal(nil, nonce, p, nil)
 }
 
+var lastStreamErr error // the error implStreamDec's last run ended with
+
 func implStreamDec(key, ct []byte) (string, []byte, string) {
 	r, _ := stream.NewReader(key, bytes.NewReader(ct))
 	out, err := io.ReadAll(r)
+	lastStreamErr = err
+	if err == nil {
+		_, lastStreamErr = r.Read(make([]byte, 1)) // io.ReadAll turns io.EOF into nil: ask again
+	}
 	oc := implOutcome(err)
 	return lst(hx(out), oc), out, oc
 }
@@ -103,6 +110,8 @@ func (c *Ctx) c02CaseK(kind string, key, plain, honest, ct []byte, keyed bool) {
 	c.Oracle("released-bytes-are-a-prefix", bytes.HasPrefix(plain, out), "stream-wrong-plaintext", in, "bytes released before the error are not a prefix of the original plaintext")
 	c.Oracle("altered-payload-never-clean-eof", same || oc != ":eof", "stream-tamper-accepted", in, "an altered payload decrypted to a clean end of stream")
 	c.Oracle("untouched-payload-decrypts", !same || (oc == ":eof" && bytes.Equal(out, plain)), "stream-roundtrip", in, "the untouched payload did not decrypt")
+	// a failure is not io.EOF in disguise: a caller testing errors.Is(err, io.EOF) must not take it for the end
+	c.Oracle("failure-is-not-eof-in-disguise", oc == ":eof" || lastStreamErr == nil || !errors.Is(lastStreamErr, io.EOF), "error-wraps-eof", in, fmt.Sprintf("the stream failed with %q, for which errors.Is(err, io.EOF) holds", fmt.Sprint(lastStreamErr)))
 	// a caller that reads again after an error gets the same error and no bytes, for ever
 	if oc != ":eof" {
 		r, _ := stream.NewReader(key, bytes.NewReader(ct))
@@ -315,6 +324,35 @@ func checkC02(c *Ctx) {
 			c.Oracle("released-bytes-are-a-prefix", bytes.HasPrefix(plain, out), "stream-wrong-plaintext", in, "released bytes are not a prefix of the plaintext")
 			c.note("long:"+name, true)
 			c.count("long-payload-tamper")
+		}
+	}
+	// (c2') trailing data after payloads that END ON A CHUNK BOUNDARY, read in small pieces: whatever is released
+	// before the error is the plaintext (the reader probes for the end while plaintext is still pending)
+	for _, nch := range []int{1, 2} {
+		key := c.rng.bytes(32)
+		plain := c.rng.bytes(nch * chunkSize)
+		ct := streamEncrypt(key, plain)
+		for _, tl := range []int{1, 2, 600, 40000, chunkSize + 16} {
+			t := append(append([]byte{}, ct...), c.rng.bytes(tl)...)
+			for _, first := range []int{1, 100, 4096} {
+				r, _ := stream.NewReader(key, bytes.NewReader(t))
+				var got []byte
+				buf := make([]byte, first)
+				var err error
+				for k := 0; k < 1<<20; k++ {
+					var n int
+					n, err = r.Read(buf)
+					got = append(got, buf[:n]...)
+					if err != nil {
+						break
+					}
+					buf = make([]byte, 4096)
+				}
+				in := map[string]interface{}{"kind": "trailing-data-after-full-final-chunk", "chunks": nch, "trailing": tl, "first_read": first}
+				c.Oracle("released-bytes-are-a-prefix", bytes.HasPrefix(plain, got), "stream-wrong-plaintext", in, "bytes released before the trailing-data error are not a prefix of the plaintext")
+				c.Oracle("altered-payload-never-clean-eof", err != nil && err != io.EOF, "stream-tamper-accepted", in, "trailing data after the final chunk was accepted")
+				c.count("trailing-after-full-final")
+			}
 		}
 	}
 	// (c3) an empty final chunk is legal only as the ONLY chunk: after n full chunks it must be refused for every n
